@@ -48,9 +48,13 @@ class FakeQuic:
     """What H3Connection touches of a QuicConnection, recording what is sent
     (the same pattern as tests/test_h3.py FakeQuicConnection)."""
 
-    def __init__(self, is_client, datagrams=True):
+    def __init__(self, is_client, datagrams=True, logger=False):
         self.configuration = _Cfg(is_client)
         self._quic_logger = None
+        if logger:  # the real qlog trace object: the HTTP layer logs every frame it sends and receives
+            from aioquic.quic.logger import QuicLogger
+
+            self._quic_logger = QuicLogger().start_trace(is_client=is_client, odcid=b"verif-od")
         self._remote_max_datagram_frame_size = 65536 if datagrams else None
         self._next_bidi = 0 if is_client else 1
         self._next_uni = 2 if is_client else 3
